@@ -290,13 +290,39 @@ func (vc *VC) fieldTag(name string) int {
 	return id
 }
 
+// elemAddr: address of the idx-th element after pointer base. elem(elem(p,a),i) is collapsed to
+// elem(p,a+i) so that reslicing keeps one canonical base.
 func (vc *VC) elemAddr(base, idx Term) Term {
+	if info, ok := vc.elemInfo[base]; ok {
+		return vc.elemAddr(info.base, simplifyAdd(info.idx, idx))
+	}
 	a := sx("elem", base, idx)
+	if _, ok := vc.elemInfo[a]; !ok {
+		vc.elemInfo[a] = elemInfo{base: base, idx: idx}
+	}
 	if !strings.Contains(a, "?") {
-		vc.sc.Axiom(Eq(sx("fbase", a), base))
-		vc.sc.Axiom(Eq(sx("fidx", a), idx))
+		vc.sc.Axiom(Eq(sx("ebase", a), sx("ebase", base)))
+		vc.sc.Axiom(Eq(sx("eidx", a), sx("+", sx("eidx", base), idx)))
 		vc.sc.Axiom(Eq(sx("ftag", a), "0"))
 		vc.sc.Axiom(Eq(sx("root", a), sx("root", base)))
 	}
 	return a
+}
+
+type elemInfo struct {
+	base, idx Term
+}
+
+// sptr: the element-0 pointer of slice term s (resolved syntactically when s was built here).
+func (vc *VC) sptr(s Term) Term {
+	if p, ok := vc.slicePtr[s]; ok {
+		return p
+	}
+	return sx("s-ptr", s)
+}
+
+func (vc *VC) mkSlice(ptr, ln, cp Term) Term {
+	t := sx("mk-slice", ptr, ln, cp)
+	vc.slicePtr[t] = ptr
+	return t
 }
